@@ -8,7 +8,7 @@ def jMinorInst (j : Json) : Except String MinorInst := do
   let g ← jGeneView (← field j "gene")
   let cands ← jList (fun c => do
     pure ({ major := ← jStr (← field c "major"), minor := ← jStr (← field c "minor"), defMuts := ← jList jMut (← field c "def") } : MinorCand)) (← field j "cands")
-  let muts ← jList jMut (← field j "mutations")
+  let muts := constructionOrder (← jList jMut (← field j "mutations"))
   let frags ← jList (jList (jPair jInt jStr)) (fieldD j "phase_fragments" (.arr #[]))
   let p ← jProfile (← field j "profile")
   let majorSol ← jList (jPair jStr jNat) (← field j "major_sol")
